@@ -697,6 +697,12 @@ func (f For) byteCode(srcsel int, fl flags.Pass, cr compResult) bytecode.Type {
 	discard := fl.Data().Discard
 	returning := fl.Data().Returning
 
+	// a return in the body has to destroy the contexts of all enclosing loops
+	ctxLo := ctxID
+	if fl.Data().InFor {
+		ctxLo = fl.Data().CtxLo
+	}
+
 	var assignAddr int
 
 	if !discard {
@@ -766,7 +772,7 @@ func (f For) byteCode(srcsel int, fl flags.Pass, cr compResult) bytecode.Type {
 	body := f.Body.byteCode(0, fl.Data().Pass(
 		flags.WithInFor(true),
 		flags.WithCtxID(ctxID+len(f.VarRefs.Elems)),
-		flags.WithCtxLo(ctxID),
+		flags.WithCtxLo(ctxLo),
 		flags.WithCtxHi(ctxID+len(f.VarRefs.Elems)-1),
 		flags.WithDiscard(discard)), cr)
 
